@@ -79,6 +79,8 @@ def judge(case, impl_res, ans):
         return 'SPEC: Merger.merge() raised %s (%s) at %s on an in-domain input' % (
             impl_res['raised'], impl_res['msg'], impl_res['where'])
     ok = impl_res['ok']
+    if ok.get('second_merge_differs'):
+        return 'SPEC: merging the same probes a second time in the same process gave different files: %s' % ok['second_merge_differs'][:4]
     if not all(ok['inputs_unchanged']):
         return 'SPEC: input directories were modified: %s' % ok['inputs_changed_files']
     if ok['spike_times']['vals'] != exp['times']:
